@@ -67,6 +67,17 @@ func HCopy(srcKind, dstKind, n, hashed, maxFaults int) {
 	hx.Must(dstBase.MkdirAll("/w", 0o755))
 	hx.Must(srcBase.WriteFile("/w/src", data, 0o600))
 	hx.Must(srcBase.Chmod("/w/src", perm))
+	// the destination may pre-exist: empty, or longer than the source, with another mode
+	switch sym.Choose("pre", 3) {
+	case 1:
+		hx.Must(dstBase.WriteFile("/w/dst", nil, 0o640))
+	case 2:
+		old := make([]byte, n+2)
+		for i := range old {
+			old[i] = 0xEE
+		}
+		hx.Must(dstBase.WriteFile("/w/dst", old, 0o640))
+	}
 	src := failfs.New(srcBase)
 	dst := failfs.New(dstBase)
 	fired := 0
